@@ -97,7 +97,7 @@ def chain_check(ops, g, snapdir):
     return None
 
 
-def run_history(ops, path, prop, snap=False):
+def run_history(ops, path, prop, snap=False, model=True):
     """returns dict: text, g, m, diff, spec (first oracle deviation relevant to prop or None), other"""
     env = None
     snapdir = None
@@ -108,9 +108,15 @@ def run_history(ops, path, prop, snap=False):
         env = dict(os.environ, VERIF_SNAPDIR=snapdir)
     text = render(ops)
     g, grc, gerr = run_harness(['store', path], text, env=env)
-    m, mrc, merr = run_oracle(render(with_observed_growth(ops, g)))
-    g = strip_growth_lines(g)
-    d = first_diff(g, m)
+    if model:
+        m, mrc, merr = run_oracle(render(with_observed_growth(ops, g)))
+        g = strip_growth_lines(g)
+        d = first_diff(g, m)
+    else:
+        # 2 MB payloads: the extracted model needs minutes per history; the quick tier judges these by the
+        # specification oracle alone and the thorough tier runs the model as well
+        g = strip_growth_lines(g)
+        m, d = None, None
     coll = ops[0]['op'] == 40
     sc = spec_check(ops, g) if coll else None
     if sc is None and grc != 0:
@@ -122,8 +128,11 @@ def run_history(ops, path, prop, snap=False):
             if len(f) == 2 and f[1] == '2' and f[0] in ('10', '11', '12', '30'):
                 sc = {'kind': 'panic', 'what': 'operation panicked', 'line': ln}
                 break
-    if sc is None and snap:
-        sc = chain_check(ops, g, snapdir)
+    if snap and (sc is None or sc['kind'] not in KINDS[prop]):
+        # a deviation of another kind (e.g. a lost document) does not excuse the chain check
+        cc = chain_check(ops, g, snapdir)
+        if cc is not None:
+            sc = cc
     if snapdir:
         shutil.rmtree(snapdir, ignore_errors=True)
     rel = sc if (sc and sc['kind'] in KINDS[prop]) else None
@@ -147,7 +156,10 @@ def store_property(prop, tier, seed, histories, level_note, replay=None, snap=Fa
 
     def handle(ops, origin):
         nonlocal corr, nviol
-        r = run_history(ops, path, prop, snap=snap)
+        use_model = tier == 'thorough' or not is_big(ops)
+        if not use_model:
+            stats['spec_only'] = stats.get('spec_only', 0) + 1
+        r = run_history(ops, path, prop, snap=snap, model=use_model)
         stats['histories'] += 1
         stats['ops'] += len(ops)
         stats['distinct'].add(hash(r['text']))
@@ -167,10 +179,10 @@ def store_property(prop, tier, seed, histories, level_note, replay=None, snap=Fa
             samples.append({'origin': origin, 'ops': ops_to_js(ops)[:6], 'first_output_lines': r['g'][:6]})
         if r['spec']:
             def fails(c):
-                rr = run_history(c, path, prop, snap=snap)
+                rr = run_history(c, path, prop, snap=snap, model=False)
                 return rr['spec'] is not None and rr['spec']['kind'] == r['spec']['kind']
             small = shrink(ops, fails) if len(ops) > 3 else ops
-            rr = run_history(small, path, prop, snap=snap)
+            rr = run_history(small, path, prop, snap=snap, model=False)
             if rr['spec'] is None:
                 small, rr = ops, r
             if chk.violation({'engine': 'store', 'what': rr['spec'], 'ops': ops_to_js(small), 'origin': origin,
@@ -226,7 +238,8 @@ def store_property(prop, tier, seed, histories, level_note, replay=None, snap=Fa
         'traces_validated_against_impl': stats['histories'],
         'samples': samples,
         'distribution': {'op_mix': stats['op_mix'], 'reopens': stats['reopens'], 'grow_events': stats['grow_events'],
-                         'error_results': stats['errors_expected']},
+                         'error_results': stats['errors_expected'],
+                         'length_code_boundary_histories_judged_by_spec_only': stats.get('spec_only', 0)},
         'correspondence': 'model and implementation agree on every output line' if corr is None else 'DIVERGED',
         'proof_obligations_broken': broken,
     })
@@ -244,6 +257,8 @@ def hist_C01(tier):
     n = 120 if tier == 'quick' else 3000
 
     def gen(rng, path):
+        for nb in BOUNDARY_SIZES:
+            yield gen_boundary_history(rng, path, nb)
         for h in range(n):
             if h % 3 == 2:
                 yield gen_sf_history(rng, rng.randint(10, 70), big=(h % 12 == 2))
@@ -256,6 +271,8 @@ def hist_C02(tier):
     n = 100 if tier == 'quick' else 2500
 
     def gen(rng, path):
+        for nb in BOUNDARY_SIZES:
+            yield gen_boundary_history(rng, path, nb)
         for h in range(n):
             if h % 4 == 3:
                 yield gen_sf_history(rng, rng.randint(10, 50))
@@ -277,6 +294,7 @@ def hist_C09(tier):
     n = 60 if tier == 'quick' else 1200
 
     def gen(rng, path):
+        yield gen_boundary_history(rng, path, BOUNDARY_SIZES[1])
         for h in range(n):
             if h % 3 == 0:
                 yield gen_sf_history(rng, rng.randint(20, 90), big=(h % 6 == 0))
